@@ -121,6 +121,21 @@ func runOnce(t *testing.T, job *Job, run uint64, rf *ReplayFile) (res RunResult,
 	var st *simrt.Streams
 	if rf != nil {
 		st = simrt.NewReplayStreams(rf.Streams)
+	} else if job.Property == "C13" && job.World == "table" && (run/48)%2 == 0 {
+		// fault enumeration: 48 consecutive runs replay the same seeded table (same streams) and
+		// differ only in the ordinal of the backend call that fails (0 = none)
+		st = simrt.NewStreams(job.Seed, run/48*48)
+		if job.Override == nil {
+			job.Override = map[string]string{}
+		}
+		ov := map[string]string{}
+		for k, v := range job.Override {
+			ov[k] = v
+		}
+		ov["fail_ordinal"] = fmt.Sprint(run % 48)
+		jc := *job
+		jc.Override = ov
+		job = &jc
 	} else {
 		st = simrt.NewStreams(job.Seed, run)
 	}
